@@ -78,7 +78,9 @@ func topPrefix(base string) string {
 	if tag == "" {
 		tag = "0"
 	}
-	return "/vt-" + tag + "-" + filepath.Base(base) + "-"
+	// (the scratch directories of different shards have different parents and could, in
+	// principle, draw the same random name)
+	return "/vt-" + tag + "-" + os.Getenv("VERIF_SHARD") + "-" + filepath.Base(base) + "-"
 }
 
 func (m *LModule) root(base string) string {
